@@ -245,10 +245,81 @@ class Deps:
         return out
 
 
-def memo_key_gap(tree, fn, cls, key, value):
-    """Parameters the memoised value depends on that the key does not."""
+def memo_key_gap(tree, fn, cls, key, value, implied=()):
+    """Parameters the memoised value depends on that the key does not (`implied`: inputs fixed by where the table lives)."""
     d = Deps(cls, tree)
-    return sorted(d.expr(value, fn, {}) - d.expr(key, fn, {}))
+    return sorted(d.expr(value, fn, {}) - d.expr(key, fn, {}) - set(implied))
+
+
+def object_state_writes(tree):
+    """State kept on an object that was handed in (a grid, a space, a parameter object): such objects are shared between
+    operators, so what is written there survives the call exactly like module-level state.
+
+    [(function, class, node, holder parameter, how, key node, value node)] for: `p.attr = v`, `p.attr[k] = v`,
+    `p.__dict__[...]`, `setattr(p, ...)`, and stores into a local that aliases `p.__dict__.setdefault(name, {})`,
+    `p.__dict__[name]` or `getattr(p, name, ...)`, for a parameter p other than self / cls."""
+    out = []
+
+    def visit(node, cls):
+        for ch in ast.iter_child_nodes(node):
+            if isinstance(ch, ast.ClassDef):
+                visit(ch, ch)
+            elif isinstance(ch, (ast.FunctionDef, ast.AsyncFunctionDef)):
+                scan(ch, cls)
+                visit(ch, cls)
+            else:
+                visit(ch, cls)
+
+    def holder_of(e, params):
+        """The parameter whose state the expression reads (p.__dict__..., getattr(p, ...), p.attr), else None."""
+        n = e
+        while isinstance(n, (ast.Attribute, ast.Subscript, ast.Call)):
+            if isinstance(n, ast.Call):
+                if isinstance(n.func, ast.Name) and n.func.id == "getattr" and n.args and isinstance(n.args[0], ast.Name) and n.args[0].id in params:
+                    return n.args[0].id
+                n = n.func
+            else:
+                n = n.value
+        return n.id if isinstance(n, ast.Name) and n.id in params else None
+
+    def scan(fn, cls):
+        a = fn.args
+        params = {x.arg for x in a.posonlyargs + a.args + a.kwonlyargs} - {"self", "cls"}
+        if not params:
+            return
+        alias = {}
+        for n in ast.walk(fn):
+            if isinstance(n, ast.Assign) and len(n.targets) == 1 and isinstance(n.targets[0], ast.Name):
+                v = n.value
+                txt = unparse(v)
+                if "__dict__" in txt or (isinstance(v, ast.Call) and isinstance(v.func, ast.Name) and v.func.id == "getattr"):
+                    h = holder_of(v, params)
+                    if h:
+                        alias[n.targets[0].id] = h
+        for n in ast.walk(fn):
+            if isinstance(n, (ast.Assign, ast.AugAssign)):
+                tgs = n.targets if isinstance(n, ast.Assign) else [n.target]
+                for tg in tgs:
+                    if isinstance(tg, ast.Attribute) and isinstance(tg.value, ast.Name) and tg.value.id in params:
+                        out.append((fn, cls, n, tg.value.id, "attribute", None, n.value))
+                    elif isinstance(tg, ast.Subscript):
+                        base = tg.value
+                        if isinstance(base, ast.Name) and base.id in alias:
+                            out.append((fn, cls, n, alias[base.id], "store", tg.slice, n.value))
+                        elif isinstance(base, (ast.Attribute, ast.Subscript, ast.Call)) and holder_of(base, params) and not (isinstance(base, ast.Name)):
+                            # p.attr[k] = v / p.__dict__[k] = v
+                            if isinstance(base, ast.Attribute) and base.attr == "__dict__":
+                                out.append((fn, cls, n, holder_of(base, params), "attribute", None, n.value))
+                            elif isinstance(base, ast.Attribute) and isinstance(base.value, ast.Name):
+                                out.append((fn, cls, n, holder_of(base, params), "store", tg.slice, n.value))
+            elif isinstance(n, ast.Call):
+                if isinstance(n.func, ast.Name) and n.func.id == "setattr" and n.args and isinstance(n.args[0], ast.Name) and n.args[0].id in params:
+                    out.append((fn, cls, n, n.args[0].id, "attribute", None, n.args[2] if len(n.args) > 2 else None))
+                elif isinstance(n.func, ast.Attribute) and n.func.attr == "setdefault" and isinstance(n.func.value, ast.Name) and n.func.value.id in alias and len(n.args) == 2:
+                    out.append((fn, cls, n, alias[n.func.value.id], "store", n.args[0], n.args[1]))
+
+    visit(tree, None)
+    return out
 
 
 def process_state(ctx, rule_id="FX-PROCESS-STATE"):
@@ -269,9 +340,27 @@ def process_state(ctx, rule_id="FX-PROCESS-STATE"):
             r.check(not gap, "%s::%s[%s]" % (rel.rsplit("/", 1)[-1], name, unparse(key)[:40]), rel, qn, node.lineno, "memo table %s in %s" % (name, qn),
                     "`%s[%s] = %s` keeps a value computed from %s in process-wide state, but the key is computed without %s: a later request that differs only in %s is served the stale entry (results depend on what was assembled before)" % (
                         name, unparse(key)[:50], unparse(value)[:70], "the arguments " + ", ".join(gap) + " (among others)", ", ".join(gap), ", ".join(gap)))
+        # state parked on objects that are handed in (grids, spaces, parameter objects are shared between operators)
+        for fn, cls, node, holder, how, key, value in object_state_writes(m.tree):
+            qn = "%s.%s" % (cls.name, fn.name) if cls is not None else fn.name
+            if how != "store" or key is None or value is None:
+                raise AnalysisError("%s:%d %s writes an attribute of its argument `%s`: state kept on a shared object is not in the reviewed inventory (sa/state.py); review what reads it" % (rel, node.lineno, qn, holder))
+            gap = memo_key_gap(m.tree, fn, cls, key, value, implied=(holder,))
+            r.check(not gap, "%s::%s state on `%s`" % (rel.rsplit("/", 1)[-1], qn, holder), rel, qn, node.lineno, "memo kept on the argument %s of %s" % (holder, qn),
+                    "a value computed from the arguments %s is kept on the object `%s` under a key computed without %s: the object is shared by later operators, which are served the stale entry when they differ only in %s" % (
+                        ", ".join(sorted(set(gap) | {holder})), holder, ", ".join(gap), ", ".join(gap)))
     missing = sorted(set(STATE_SITES) - seen)
     if missing:
         raise AnalysisError("reviewed state sites no longer found: %s" % missing)
+    bad2 = ast.parse(
+        "def rule_for(grid, order, sup):\n"
+        "    rules = grid.__dict__.setdefault('_rules', {})\n"
+        "    key = (sup.tobytes(),)\n"
+        "    if key not in rules:\n"
+        "        rules[key] = Rule(grid, order, sup)\n"
+        "    return rules[key]\n")
+    w2 = object_state_writes(bad2)
+    r.must_fire(len(w2) == 1 and memo_key_gap(bad2, w2[0][0], w2[0][1], w2[0][5], w2[0][6], implied=(w2[0][3],)) == ["order"], "memo parked on the grid object, keyed without the order")
     bad = ast.parse(
         "_TAB = {}\n"
         "class R:\n"
